@@ -124,7 +124,13 @@ fn c33_check(body: &[usize], iters: u32, idx: u64, ph: bool) -> Vec<(String, Str
                     out.push(("n1-changed".to_string(), "n = 1 does not return the program unchanged".to_string()));
                 }
             }
-            _ => match interp(&w, 10000) {
+            _ => {
+                // the counter cell the loop uses must exist in the wrapped program's own declarations
+                match w.memory_regions.get("cnt") {
+                    Some(r) if r.size.length > idx => {}
+                    other => out.push(("counter-not-declared".to_string(), format!("the loop counts in cnt[{idx}], but the wrapped program declares cnt as {:?}", other.map(|r| r.size.length)))),
+                }
+                match interp(&w, 10000) {
                 Err(e) => out.push((format!("does-not-terminate:index{}", idx.min(1)), format!("the wrapped program does not run to completion ({e}); text: {}", w.to_quil_or_debug().replace('\n', "; ")))),
                 Ok(log) => {
                     let filt: Vec<String> = log.into_iter().filter(|l| !l.contains("cnt")).collect();
@@ -136,7 +142,8 @@ fn c33_check(body: &[usize], iters: u32, idx: u64, ph: bool) -> Vec<(String, Str
                         out.push((format!("trace-differs:index{}", idx.min(1)), format!("executed {} body instructions, expected body x {iters} = {}", filt.len(), want.len())));
                     }
                 }
-            },
+            }
+            }
         }
         out
     });
@@ -150,7 +157,7 @@ pub static C33: PropDef = PropDef {
     id: "C33",
     level: "model_checking",
     engine: "sweep",
-    rule: "every body of length <= 3 (thorough 5) over {X 0, PRAGMA p, PULSE, MOVE a 1, ADD a 1, MEASURE 0 ro, RX(a) 1, LABEL @inner} on a header with one definition of every kind x n in 0..4 (thorough 0..10) x counter reference cnt[0] / cnt[1] x fixed / placeholder start label; the wrapped program is executed by a small classical interpreter (states = (pc, memory), horizon 10000 steps) and its trace of non-control instructions is compared with body^n; n = 0 / n = 1 clauses; definitions preserved. non-trivial = case with n >= 2 and a non-empty body",
+    rule: "every body of length <= 3 (thorough 5) over {X 0, PRAGMA p, PULSE, MOVE a 1, ADD a 1, MEASURE 0 ro, RX(a) 1, LABEL @inner} on a header with one definition of every kind x n in 0..4 (thorough 0..10) x counter reference cnt[0] / cnt[1] x fixed / placeholder start label; the wrapped program is executed by a small classical interpreter (states = (pc, memory), horizon 10000 steps) and its trace of non-control instructions is compared with body^n; the counter cell must lie inside the region the wrapped program declares; n = 0 / n = 1 clauses; definitions preserved. non-trivial = case with n >= 2 and a non-empty body",
     assumptions: &["interpreter mc/src/props/prog.rs interp(): integer MOVE/ADD/SUB, LABEL/JUMP/JUMP-WHEN/JUMP-UNLESS/HALT; everything else is logged as executed"],
     run: |ctx| {
         let l = ctx.tier.pick(3, 5);
